@@ -16,6 +16,13 @@
 (*           h(x, N) along x with the gradient that reached x for upstream *)
 (*           gradient gin (both x 1000).                                   *)
 (*  "registry" [fns]  the functions the built-in specifications register.  *)
+(*  "life"   [l, init, hist, ev]  a HISTORY on one shared description (a   *)
+(*           real dict re-used for every call; module CostLife): events    *)
+(*           [a |-> "set", f, v]  the owner writes one field, or           *)
+(*           [a |-> "eval", m, pat, res, fresh, pos, frame]  function m/pat *)
+(*           is asked: res = observation on the shared dict, fresh = on a  *)
+(*           newly built dict with the same contents, frame = "same" or a  *)
+(*           description of what the call changed in the shared dict.      *)
 (*                                                                         *)
 (* An observed value is a little-endian base-10^4 limb list of             *)
 (*      round(value * ObsUnit)       (never empty; zero is <<0>>)          *)
@@ -33,7 +40,7 @@
 (* binary).  The same slack is granted to the monotone-chain clause of     *)
 (* these models, none to the others.                                       *)
 (***************************************************************************)
-EXTENDS CostFormulas, Json, IOUtils, TLC
+EXTENDS CostLife, Json, IOUtils, TLC
 
 Traces == JsonDeserialize(IOEnv.TRACE_FILE)
 
@@ -271,8 +278,56 @@ CheckRegistry(t) ==
     ELSE "drift:registered cost functions differ from the specification: only in plinio "
          \o ToString(real \ Registered) \o ", only in the specification " \o ToString(Registered \ real)
 
+(***************************************************************************)
+(* history on one shared description (purity; CostLife)                    *)
+(***************************************************************************)
+RECURSIVE LifeWalk(_, _, _, _)
+LifeWalk(t, i, p, drift) ==
+    IF i > Len(t.ev) THEN (IF drift = "" THEN "ok" ELSE "drift:" \o drift)
+    ELSE LET e == t.ev[i] IN
+    IF e.a = "set"
+    THEN IF ~(e.f \in LifeFields /\ FieldApplies(t.l, p.g, e.f))
+         THEN "C16.trace: set event " \o ToString(i) \o " does not apply"
+         ELSE LifeWalk(t, i + 1, SetFieldOf(t.l, p, e.f, e.v), drift)
+    ELSE IF e.a # "eval" THEN "C16.trace: unknown event " \o ToString(i)
+    ELSE
+    LET fn      == [m |-> e.m, l |-> t.l, pat |-> e.pat]
+        at      == " [event " \o ToString(i) \o " of " \o t.hist \o "] " \o Where(fn, p)
+        raised  == Cat(e.res) = -1
+        decl    == DeclaredSupported(fn, p)
+        claimed == ~(fn.m = "ne16_latency" /\ p.w \notin {2, 4, 8})     \* NE16 declares no weight restriction
+    IN
+    IF fn \notin FnsFor(t.l, p.g) \/ ~ValidFor(fn, p) \/ ~WellFormedObs(e.res) \/ ~WellFormedObs(e.fresh)
+    THEN "C16.trace: malformed eval event " \o ToString(i)
+    ELSE IF e.frame # "same"
+    THEN "C16.frame: the evaluation modified the layer description it was given (" \o e.frame \o "):" \o at
+    ELSE IF e.res # e.fresh
+    THEN "C16.history: on a description that was used before the function returns " \o ToString(e.res)
+         \o " but on an identical fresh description " \o ToString(e.fresh) \o ":" \o at
+    ELSE IF claimed /\ ~decl /\ ~raised
+    THEN "C16.reject: unsupported precision / layer kind is not rejected:" \o at
+    ELSE IF claimed /\ decl /\ raised
+    THEN "C16.defined: cost function raises on a valid description:" \o at
+    ELSE IF Cat(e.res) = -2 THEN "C16.finite: cost is not finite:" \o at
+    ELSE IF Cat(e.res) = -3 THEN "C16.nonneg: cost is negative:" \o at
+    ELSE IF ~raised /\ NonEmpty(p) /\ NonZeroBits(fn.m, p) /\ ~e.pos
+    THEN "C16.positive: zero cost for a non-empty layer:" \o at
+    ELSE LifeWalk(t, i + 1, p,
+                  IF drift # "" THEN drift
+                  ELSE IF raised # (CostCore(fn, p, S) = Reject)
+                  THEN "transcription and code disagree on rejection:" \o at
+                  ELSE IF ~raised /\ ~Conforms(fn, p, BigPad(e.res))
+                  THEN "value differs from the transcription: observed " \o BigStr(BigPad(e.res))
+                       \o " predicted " \o Predicted(fn, p) \o ":" \o at
+                  ELSE "")
+
+CheckLife(t) ==
+    IF t.l \notin {"conv1d", "conv2d", "linear"} \/ Len(t.ev) = 0 THEN "C16.trace: malformed life trace"
+    ELSE LifeWalk(t, 1, t.init, "")
+
 Check(t) ==
     CASE t.kind = "chain"  -> CheckChain(t)
+      [] t.kind = "life"   -> CheckLife(t)
       [] t.kind = "registry" -> CheckRegistry(t)
       [] t.kind = "dw"     -> CheckDw(t)
       [] t.kind = "reject" -> CheckReject(t)
